@@ -848,6 +848,34 @@ example : Rows.ctorPre (Ctor.fromDiagonal 0 [7, 8, 9] : Ctor Nat) = true ∧
     Rows.ctorPre (Ctor.row [] : Ctor Nat) = false :=
   ⟨by decide, rfl, by decide, by decide, by decide⟩
 
+/-- `retain_congr`: two differently shaped slice expressions that denote the same set -/
+example : SliceEquiv (.not (.or (.single 0) (.range 2 9))) (.and (.not (.single 0)) (.not (.range 2 9))) :=
+  (slice_algebra (.single 0) (.range 2 9) 0 0 0 0).2.2.1
+
+/-- `round_trips`: its position hypotheses hold for a middle row of a 3×2 matrix, and the row that
+    is removed and re-inserted is `[3, 4]` -/
+example : (1 ≤ (⟨[1, 2, 3, 4, 5, 6], 3, 2⟩ : Matrix Nat).rows) ∧
+    1 < (⟨[1, 2, 3, 4, 5, 6], 3, 2⟩ : Matrix Nat).rows ∧
+    (abs (⟨[1, 2, 3, 4, 5, 6], 3, 2⟩ : Matrix Nat))[1]? = some [3, 4] := by decide
+
+/-- `xpanic_frame`: an operation that is not an in-place map and does panic (the iterator's `next`
+    panics on its second call) -/
+example : ((⟨[1, 2, 3, 4, 5, 6], 3, 2⟩ : Matrix Nat).xexec (.insertRowWithPanic 1 [7, 8] 1)).panic ≠ none := by
+  decide
+
+/-- `trySet_refines` / `matrix_ref_refines` / `intoTensor_refines`: an index inside and one outside
+    a 2×3 matrix, two different dimension names -/
+example : Rows.pre (abs (⟨[1, 2, 3, 4, 5, 6], 2, 3⟩ : Matrix Nat)) (.set 1 2 9) = true ∧
+    Rows.pre (abs (⟨[1, 2, 3, 4, 5, 6], 2, 3⟩ : Matrix Nat)) (.set 2 0 9) = false ∧
+    (⟨[1, 2, 3, 4, 5, 6], 2, 3⟩ : Matrix Nat).tryGet 1 2 = some 6 ∧
+    (abs (⟨[1, 2, 3, 4, 5, 6], 2, 3⟩ : Matrix Nat)).flatten[1 * 3 + 2]? = some 6 ∧
+    ("row" : String) ≠ "column" := by decide
+
+/-- `eq_refines` / `abs_injective`: two matrices with the invariant and equal lists of rows -/
+example : (⟨[1, 2], 1, 2⟩ : Matrix Nat).Inv ∧
+    abs ((⟨[1, 2, 9, 9], 2, 2⟩ : Matrix Nat).run [.removeRow 1]) = abs (⟨[1, 2], 1, 2⟩ : Matrix Nat) := by
+  decide
+
 /-! ### the unrepaired code violates these statements (defect witnesses)
 
   `…Old` are the operations as they are at the pinned commit.  Each witness is evaluated by the
